@@ -11,9 +11,19 @@ import tempfile
 import time
 
 VERIF = os.path.dirname(os.path.dirname(os.path.abspath(__file__)))
-sel = sys.argv[1:]
-if subprocess.run(["git", "-C", "/repo", "status", "--short"], capture_output=True, text=True).stdout.strip():
-    sys.exit("/repo is not clean")
+sel = [a for a in sys.argv[1:] if not a.startswith("--")]
+TARGET = "/repo"
+ENV = {}
+if "--worktree" in sys.argv:  # do not touch /repo: scratch worktree + NSLSIM_REPO
+    TARGET = tempfile.mkdtemp(prefix="benign-wt-", dir="/tmp")
+    os.rmdir(TARGET)
+    subprocess.run(["git", "-C", "/repo", "worktree", "add", "--detach", TARGET, "HEAD", "-q"], check=True)
+    ENV = {"NSLSIM_REPO": TARGET}
+    import atexit
+
+    atexit.register(lambda: subprocess.run(["git", "-C", "/repo", "worktree", "remove", "--force", TARGET]))
+if subprocess.run(["git", "-C", TARGET, "status", "--short"], capture_output=True, text=True).stdout.strip():
+    sys.exit(TARGET + " is not clean")
 bad = 0
 n = 0
 for bid in sorted(os.listdir(os.path.join(VERIF, "benign"))):
@@ -24,11 +34,11 @@ for bid in sorted(os.listdir(os.path.join(VERIF, "benign"))):
     rd = tempfile.mkdtemp(prefix="benign-", dir="/dev/shm" if os.path.isdir("/dev/shm") else None)
     t0 = time.time()
     try:
-        subprocess.run(["git", "-C", "/repo", "apply", os.path.join(d, "patch.diff")], check=True)
+        subprocess.run(["git", "-C", TARGET, "apply", os.path.join(d, "patch.diff")], check=True)
         p = subprocess.run([os.path.join(VERIF, "check"), prop, "--tier", "quick", "--no-evidence", "--no-shrink"],
-                           cwd=VERIF, env=dict(os.environ, NSLSIM_REPLAY_DIR=rd), capture_output=True, text=True)
+                           cwd=VERIF, env=dict(os.environ, NSLSIM_REPLAY_DIR=rd, **ENV), capture_output=True, text=True)
     finally:
-        subprocess.run(["git", "-C", "/repo", "checkout", "--", "."], check=True)
+        subprocess.run(["git", "-C", TARGET, "checkout", "--", "."], check=True)
         subprocess.run(["rm", "-rf", rd])
     n += 1
     ok = p.returncode == 0
